@@ -2582,8 +2582,28 @@ fn compare_int_float(i: i64, f: f64) -> Ordering {
     if f.is_nan() {
         return Ordering::Less;
     }
-    let i_as_f = i as f64;
-    i_as_f.partial_cmp(&f).unwrap_or(Ordering::Equal)
+    // Exact comparison: every f64 of magnitude >= 2^63 is outside the i64 range, and every
+    // other finite f64 has an integral part that fits i64, so nothing is rounded.
+    if f >= 9_223_372_036_854_775_808.0 {
+        return Ordering::Less;
+    }
+    if f < -9_223_372_036_854_775_808.0 {
+        return Ordering::Greater;
+    }
+    let whole = f.trunc();
+    match i.cmp(&(whole as i64)) {
+        Ordering::Equal => {
+            let frac = f - whole;
+            if frac > 0.0 {
+                Ordering::Less
+            } else if frac < 0.0 {
+                Ordering::Greater
+            } else {
+                Ordering::Equal
+            }
+        }
+        other => other,
+    }
 }
 
 fn compare_float_int(f: f64, i: i64) -> Ordering {
@@ -2594,36 +2614,69 @@ fn compare_bigint_float(big: &BigInt, f: f64) -> Ordering {
     if f.is_nan() {
         return Ordering::Less;
     }
-    let big_as_f = bigint_to_f64(big);
-    big_as_f.partial_cmp(&f).unwrap_or(Ordering::Equal)
+    if f == f64::INFINITY {
+        return Ordering::Less;
+    }
+    if f == f64::NEG_INFINITY {
+        return Ordering::Greater;
+    }
+    // Exact comparison: a finite f64 of magnitude >= 2^53 is an integer m * 2^e, which is
+    // compared digit by digit with the big integer; smaller floats are handled through i64.
+    let digits: &[u8] = {
+        let mut n = big.digits.len();
+        while n > 0 && big.digits[n - 1] == 0 {
+            n -= 1;
+        }
+        &big.digits[..n]
+    };
+    let negative = big.sign.is_negative() && !digits.is_empty();
+    if digits.len() <= 7 {
+        let mut bytes = [0u8; 8];
+        bytes[..digits.len()].copy_from_slice(digits);
+        let magnitude = i64::from_le_bytes(bytes);
+        return compare_int_float(if negative { -magnitude } else { magnitude }, f);
+    }
+    if (f < 0.0) != negative {
+        return if negative {
+            Ordering::Less
+        } else {
+            Ordering::Greater
+        };
+    }
+    let magnitude_order = compare_magnitude_with_float(digits, f.abs());
+    if negative {
+        magnitude_order.reverse()
+    } else {
+        magnitude_order
+    }
+}
+
+/// Compares a little-endian magnitude of at least 8 significant digits (>= 2^56) with a
+/// finite non-negative float.
+fn compare_magnitude_with_float(digits: &[u8], f: f64) -> Ordering {
+    if f < 72_057_594_037_927_936.0 {
+        // f < 2^56 <= magnitude
+        return Ordering::Greater;
+    }
+    // f = mantissa * 2^exponent with a 53-bit mantissa and exponent >= 4
+    let bits = f.to_bits();
+    let exponent = ((bits >> 52) & 0x7ff) as usize - 1075;
+    let mantissa = (bits & ((1u64 << 52) - 1)) | (1u64 << 52);
+    let shifted = (mantissa as u128) << (exponent % 8);
+    let low_zero_bytes = exponent / 8;
+    let mut float_digits = vec![0u8; low_zero_bytes];
+    float_digits.extend_from_slice(&shifted.to_le_bytes());
+    while float_digits.last() == Some(&0) {
+        float_digits.pop();
+    }
+    digits
+        .len()
+        .cmp(&float_digits.len())
+        .then_with(|| digits.iter().rev().cmp(float_digits.iter().rev()))
 }
 
 fn compare_float_bigint(f: f64, big: &BigInt) -> Ordering {
     compare_bigint_float(big, f).reverse()
-}
-
-fn bigint_to_f64(big: &BigInt) -> f64 {
-    let mut result = 0f64;
-    let mut scale = 1.0f64;
-
-    for &byte in big.digits.iter() {
-        let contribution = (byte as f64) * scale;
-        if contribution.is_infinite() || scale.is_infinite() {
-            return if big.sign.is_negative() {
-                f64::NEG_INFINITY
-            } else {
-                f64::INFINITY
-            };
-        }
-        result += contribution;
-        scale *= 256.0;
-    }
-
-    if big.sign.is_negative() {
-        -result
-    } else {
-        result
-    }
 }
 
 fn compare_term_lists(a: &[OwnedTerm], b: &[OwnedTerm]) -> Ordering {
